@@ -41,7 +41,7 @@ func Scenarios() []Scenario {
 		{"error-stack", `function g(){ return new Error("e").stack } var st=g(); st.split("\n").length + ":" + (st.indexOf("c16.js:1:") >= 0) + ":" + (function(){ try { null.x } catch(e){ return e.stack.split("\n").length } })()`, ""},
 		{"literals", "var o={a:1,'b':[1,2,{c:`t${1}`}],get g(){return 2},[`k${1}`]:3}; JSON.stringify(o)+o.g", ""},
 		{"generator-async", `function* g(){ var x=yield 1; yield x*2 } var it=g(); it.next(); var r=it.next(4).value; var out=[]; (async function(){ out.push(await 1) })(); r+":"+out.length`, ""},
-		{"destructuring", `var {a=1,b:[c=2,...d]=[],f:{g}={g:7}}={b:[undefined,3,4]}; var [x,,y=9]=[1,2]; [a,c,d,g,x,y].join()`, ""},
+		{"destructuring", `var {a=1,b:[c,d]=[]}={b:[2,3]}; var [x,,y=9,...z]=[1,2]; function f({p,q=5},[r]=[7]){ return p+q+r } [a,c,d,x,y,z.length,f({p:1})].join()`, ""},
 		{"unicode-const", `var s="héllo wörld, this is a long cönstant string \u{1F600}"; s.toUpperCase()+s.length+s.indexOf("w")+s.codePointAt(44)`, ""},
 		{"bigint-const", `10n**20n + 1n + "" + (2n**64n).toString(16)`, ""},
 		{"switch-labels", `var r=""; L: for (var i=0;i<3;i++){ switch(i){ case 0: r+="a"; continue L; case 1: r+="b"; break; default: r+="c"; break L } r+="-" } r`, ""},
